@@ -36,7 +36,7 @@ ASSUMPTIONS = [
     'generated closures (inject_from_env, runner) is exercised by the bounded units and by C19',
     'the name of a generated task is an uninterpreted function of its hard dependencies and function name (string formatting not modelled)',
     'termination of close_dependency_graph (acyclic dependencies) is not proved',
-    'Use.from_func / Use.map / using / UseRun: bounded units only',
+    'Use.__init__ is an assumed constructor contract (stores what it is given); Use.map / using / UseRun: bounded units only',
     'A-log: LOGGER calls dropped',
 ]
 TRUSTED = ['z3 unsat answers (cvc5 cross-check in the thorough tier)', 'CPython ast module', 'pyvc engine (symbolic executor, libspec encodings)']
@@ -204,6 +204,107 @@ def get_task_setup(I, scope):
 
 
 # ---------------------------------------------------------------------------------------
+# Use.from_func: decorating a wrapper extends a COPY of its injections
+ARGS_T = 'Seq[Tuple[Ref:Task,Ref:Key]]'
+KW_T = 'Map[Str,Tuple[Ref:Task,Ref:Key]]'
+
+
+def from_func_world():
+    w = use_world()
+
+    def new_use(I, args, kwargs):
+        '''assumed contract of Use.__init__: stores the given containers (copies of them do not change what they hold)'''
+        g = lambda k, d=None: kwargs.get(k, d)      # noqa
+        ia, ik = g('inj_args'), g('inj_kwargs')
+        o = I.alloc('Use', {'inj_args': ia, 'inj_kwargs': ik, 'wrapped': g('wrapped'), 'deps_type': g('deps_type'), 'serialize': g('serialize'),
+                            'func_name': I.fresh(STR, 'func_name'), '_USE_CACHING': True})
+        return o
+    w.construct_hooks['Use'] = new_use
+
+    def isinstance_hook(I, x, cls):
+        if isinstance(x, SV) and x.typ == T('Ref', 'Func'):
+            return False          # a free function is not a Use object
+        return NotImplemented
+    w.isinstance_hook = isinstance_hook
+    return w
+
+
+def c_from_func(decorating, keyword):
+    params = {'cls': 'Class:Use', 'func': 'Obj:Use' if decorating else 'Ref:Func', 'task': 'Ref:Task', 'key': 'Ref:Key', 'kwarg': 'Str' if keyword else 'None',
+              'deps_type': 'Str', 'serialize': 'Bool'}
+    base_args = 'old(func.inj_args)' if decorating else 'EMPTY_ARGS'
+    base_kw = 'old(func.inj_kwargs)' if decorating else 'EMPTY_KW'
+    ens = []
+    if keyword:
+        ens += [('C15-positional-injections-inherited', f'same(result.inj_args, {base_args})'),
+                ('C15-the-keyword-injection-is-added', f'all((k in result.inj_kwargs) == (k in {base_kw} or k == kwarg) for k in Strings) and same(result.inj_kwargs[kwarg][0], task) '
+                 f'and same(result.inj_kwargs[kwarg][1], key) and all(implies(k in {base_kw} and k != kwarg, same(result.inj_kwargs[k], {base_kw}[k])) for k in Strings)')]
+    else:
+        ens += [('C15-the-positional-injection-is-appended', f'len(result.inj_args) == len({base_args}) + 1 and same(result.inj_args[len({base_args})][0], task) and '
+                 f'same(result.inj_args[len({base_args})][1], key) and all(same(result.inj_args[j], {base_args}[j]) for j in range(len({base_args})))'),
+                ('C15-keyword-injections-inherited', f'same(result.inj_kwargs, {base_kw})')]
+    ens.append(('C15-wraps-what-was-asked', 'result.wrapped is func and same(result.deps_type, deps_type)'))
+    if decorating:
+        ens.append(('C15-the-decorated-wrapper-is-not-modified', 'same(func.inj_args, old(func.inj_args)) and same(func.inj_kwargs, old(func.inj_kwargs))'))
+    return Contract(USEF, 'Use.from_func', params=params, ensures=ens, signals={},
+                    variant=('decorating-a-wrapper' if decorating else 'free-function') + ('-keyword' if keyword else '-positional'))
+
+
+def from_func_setup(I, scope):
+    from pyvc.values import parse_type
+    scope.set('EMPTY_ARGS', I.world.lib.empty_of(I, parse_type(ARGS_T)))
+    scope.set('EMPTY_KW', I.world.lib.empty_of(I, parse_type(KW_T)))
+
+
+# ---------------------------------------------------------------------------------------
+# collect_tasks: names are checked on the CLOSED list of tasks
+def c_collect():
+    return Contract(COMMONF, 'collect_tasks', params={'job_file': 'Str', 'job_args': 'None', 'job_kwargs': 'None'}, signals={'ValueError': True})
+
+
+def collect_world():
+    w = World()
+    w.globals['LOGGER'] = SNamespace('LOGGER', dropped=True)
+
+    def run_job(I, *a):
+        I.trace.append(('run_job',))
+        I.job_tasks = I.fresh(parse('Seq[Ref:Task]'), 'job_tasks')
+        return I.job_tasks
+
+    def close(I, tasks):
+        I.trace.append(('close', tasks))
+        I.closed = I.fresh(parse('Seq[Ref:Task]'), 'closed_tasks')
+        return I.closed
+
+    def check(I, tasks):
+        I.trace.append(('check', tasks))
+        if I.path.cond(z3.Bool(I.path.name('duplicate_names'))):
+            I.raise_('ValueError')
+        return None
+    w.globals.update({'run_job': run_job, 'close_dependency_graph': close, 'check_unique_task_names': check})
+    return w
+
+
+def collect_setup(I, scope):
+    I.trace = []
+    I.closed = None
+    I.job_tasks = None
+
+
+def collect_check(I, scope, outcome):
+    p = I.path
+    L = f'{COMMONF}::collect_tasks'
+    closes = [e for e in I.trace if e[0] == 'close']
+    checks = [e for e in I.trace if e[0] == 'check']
+    p.oblige(f'{L}::post::C15-the-job-tasks-are-closed-under-dependencies-once', len(closes) == 1 and closes[0][1] is I.job_tasks, kind='post',
+             meta={'expr': 'close_dependency_graph(tasks returned by job()) exactly once'})
+    p.oblige(f'{L}::post::C15-names-are-checked-on-the-closed-list', len(checks) == 1 and I.closed is not None and checks[0][1] is I.closed, kind='post',
+             meta={'expr': 'check_unique_task_names receives the closed list (transitive dependencies included)'})
+    if outcome[0] == 'return':
+        p.oblige(f'{L}::post::C15-returns-the-closed-list', outcome[1] is I.closed, kind='post', meta={'expr': 'the collected tasks are the closed list'})
+
+
+# ---------------------------------------------------------------------------------------
 # RunTaskFactory.make : cache logic
 class FactoryModel(ClassModel):
     name = 'RunTaskFactory'
@@ -283,7 +384,7 @@ def make_setup(I, scope):
 
 
 def units(tier):
-    return ['close_dependency_graph', 'check_unique_task_names', 'get_task', 'make_named', 'make_generated', 'native_use', 'native_factory', 'native_collect']
+    return ['close_dependency_graph', 'check_unique_task_names', 'collect_tasks', 'from_func', 'get_task', 'make_named', 'make_generated', 'native_use', 'native_factory', 'native_collect']
 
 
 def _replay_native(name, inp):
@@ -313,6 +414,15 @@ def run_unit(unit, tier, seed, known):
         w = graph_world()
         w.globals['Strings'] = SV(T('Set', STR), z3.K(z3.StringSort(), z3.BoolVal(True)))
         res = verify_function(w, c_unique())
+    elif unit == 'collect_tasks':
+        res = verify_function(collect_world(), c_collect(), setup=collect_setup, extra_check=collect_check)
+    elif unit == 'from_func':
+        out = []
+        for dec in (True, False):
+            for kw in (True, False):
+                w = from_func_world()
+                out.append(prop.discharge(verify_function(w, c_from_func(dec, kw), setup=from_func_setup), tier, ID, lambda m, r: {'note': 'see model text'}, _replay_native))
+        return {'functions': out}
     elif unit in ('make_named', 'make_generated'):
         w = factory_world()
         res = verify_function(w, c_make(unit == 'make_named'), setup=make_setup)
